@@ -58,4 +58,8 @@ def jobs(tier):
                  assumes=["inductive hypothesis: counts within limits before the step"],
                  bounds="one Hello completing one incomplete connection; completed count, per-user count and both limits symbolic up to 1000; any single failing step",
                  shape="connection completion step"))
+    # Hello as a whole under OOM: the C03 Hello skeleton with the atomicity obligation switched on (known finding F18)
+    sp3 = importlib.util.spec_from_file_location("vfjobs_x_C03", os.path.join(os.path.dirname(__file__), "C03.py")); m3 = importlib.util.module_from_spec(sp3); m3.Job = Job; sp3.loader.exec_module(m3)
+    for j in m3.jobs(tier):
+        if j.name == "c.hello_once": j.group = "C14.hello"; j.name = "hello.atomicity"; j.defines = dict(j.defines, VF_C14_HELLO=1); J.append(j)
     return J
